@@ -214,6 +214,21 @@ def check_property(prop, tier):
                     r = run_replay(build_harness("release"), path, ["--no-observers", "--no-lookups", "--post-pulls", "--detable", det + ".plain"], "C10-post-%s-release" % cfg)
                     add_replay(v, r, meta, "the same on a release build", ["C10"])
 
+    if prop in ("C01", "C03", "C04", "C05", "C07", "C08", "C12", "C09", "C10", "C11"):
+        # the same comparisons on an arena that came to be through dst.clone_from(&arena) onto a USED destination (the previous
+        # bundle's arena): a clone_from that forgets a link, a stamp or a free-list end shows in the property that reads it
+        path, meta = ensure_bundles(bundle_cfgs[0])
+        if prop in ("C09", "C10", "C11"):
+            flags = ["--no-outcomes"]
+            if prop == "C10":
+                det, _ = ensure_bundles("DETable")
+                sh(["bash", "-c", "pigz -dc %s > %s.plain" % (det, det)])
+                flags += ["--pulls", "--detable", det + ".plain"]
+        else:
+            flags = ["--no-observers", "--no-lookups"]
+        r = run_replay(build_harness("debug"), path, flags + ["--via-clone-from"], prop + "-via-clone-from")
+        add_replay(v, r, meta, "every state reached through clone_from onto a used destination before the calls / observers of the bundle are compared", [prop])
+
     if prop == "C16":
         for cfg in bundle_cfgs:
             path, meta = ensure_bundles(cfg)
